@@ -353,6 +353,9 @@ func genC16(seed uint64, tier string, idx int) c16Data {
 		sc.FromFile = true // -f file equals passing the file's text
 	}
 	sc.Plan, sc.PlanClass = simio.GenPlan(r, len(sc.Stdin), []int{r.Intn(len(sc.Stdin) + 1)})
+	if sp := kernel.NewRand(kernel.Mix(seed, 16, 9, uint64(idx))); sp.Bool(0.35) {
+		sc.Spell = sp.Uint64() | 1 // the same flags spelled another way
+	}
 	return d
 }
 
